@@ -105,6 +105,9 @@ def gen_case(rng, tag):
                  'sparse': rng.randrange(60, 3000)}[slack_kind]
         if t is None:
             start = (W + rng.choice([0, 1, 2, 30, 900, 107000, 108000, 220000, 2500000])) * CW
+            if rng.random() < 0.2:
+                # shortly after a full hour of real time (the non-drop timecode is still in the hour before)
+                start = rng.choice([1, 2, 5, 23]) * 3600 * 10 ** 6 + rng.choice([100000, 1500000, 3000000, 3590000, 3700000]) + W * CW
         else:
             start = t + (W + slack) * CW
         start = int(start) + 1
